@@ -177,6 +177,11 @@ def run_case(cfg):
             for x in cfg['calls']:
                 if f(x) != 'v%d' % x: bad('C01', 'chdir-wrong-result', 'g(%d) wrong before the directory change' % x)
             f.dump()
+            if cfg['seed'] % 2:
+                # a later session: a fresh decorator on a fresh handle that finds the store ALREADY THERE under its relative name
+                f = D(**dkw(cfg, kcache(archive=mk())))(g)
+                for x in cfg['calls'][:4]:
+                    if f(x) != 'v%d' % x: bad('C01', 'chdir-wrong-result', 'g(%d) wrong in the later session' % x)
             pick = dill.dumps(f.__cache__().archive) if cfg['arch'] != 'sql' else None      # (a sqlite3 connection does not pickle)
             os.chdir(os.path.join(tmp, 'elsewhere'))
             n0 = len(evals)
